@@ -6,6 +6,7 @@ Patched (as tests/test_requirements.py does): Home Assistant's installer `async_
 MockConfigEntry registered in a real HomeAssistant object; `async_update_entry` is the real one (wrapped to
 count calls).  Files are written under /var/tmp and removed after each run."""
 import asyncio
+import copy
 import glob as _glob
 import json
 import os
@@ -149,17 +150,58 @@ def do_merge(case):
 async def do_install(hass, case):
     from pytest_homeassistant_custom_component.common import MockConfigEntry
 
+    from homeassistant.config_entries import SOURCE_IMPORT
+    from homeassistant.requirements import RequirementsNotFound
+
+    import custom_components.pyscript as P
+
     env = dict(case.get("env0", []))
-    data = {CONF_ALLOW_ALL_IMPORTS: False}
+    data = {CONF_ALLOW_ALL_IMPORTS: bool(case["steps"][0]["allow"]) if case["steps"] else False}
     if case.get("rec0") is not None:
         data[CONF_INSTALLED_PACKAGES] = dict(case["rec0"])
-    entry = MockConfigEntry(domain=DOMAIN, data=data)
+    # pyscript configured through configuration.yaml: the stored entry has source "import"
+    entry = MockConfigEntry(domain=DOMAIN, data=copy.deepcopy(data), source=SOURCE_IMPORT, unique_id=DOMAIN)
     entry.add_to_hass(hass)
     cands = set(env.values()) | {v for _k, v in (case.get("rec0") or [])}
     steps = []
     # what is PERSISTED: the record as last handed to hass.config_entries.async_update_entry (snapshot taken at the call;
     # initially the record the entry was created with).  This is what survives a restart, not the live entry.data object.
     persisted = [None if case.get("rec0") is None else dict(case["rec0"])]
+    stored = [copy.deepcopy(data)]          # the whole entry data as last handed to async_update_entry (= .storage)
+    in_install = [False]
+    updates = [0]
+    real_update = hass.config_entries.async_update_entry
+
+    def tracking_update(*a, **k):
+        data_arg = k.get("data")
+        if data_arg is not None:
+            stored[0] = copy.deepcopy(dict(data_arg))                      # snapshot: later in-place edits do not count
+            rec = data_arg.get(CONF_INSTALLED_PACKAGES)
+            persisted[0] = None if rec is None else dict(rec)
+        if in_install[0]:
+            updates[0] += 1
+        return real_update(*a, **k)
+
+    def yaml_conf(allow):
+        return {CONF_ALLOW_ALL_IMPORTS: bool(allow)}
+
+    async def restart(allow):
+        """Home Assistant restart: the entry is loaded from storage, then async_setup() imports the plain YAML configuration"""
+        real_update(entry, data=copy.deepcopy(stored[0]))
+        await hass.config_entries.flow.async_init(DOMAIN, context={"source": SOURCE_IMPORT}, data=P.PYSCRIPT_SCHEMA(yaml_conf(allow)))
+        await hass.async_block_till_done()
+
+    async def reload_yaml(allow):
+        """pyscript.reload / entry reload: update_yaml_config() re-reads configuration.yaml"""
+        async def fake_yaml(_hass):
+            return {DOMAIN: yaml_conf(allow)}
+
+        with patch.object(P, "async_hass_config_yaml", side_effect=fake_yaml):
+            await P.update_yaml_config(hass, entry)
+        await hass.async_block_till_done()
+
+    upd_patch = patch.object(hass.config_entries, "async_update_entry", side_effect=tracking_update)
+    upd_patch.start()
     try:
         for st in case["steps"]:
             for k, v in st.get("ext", []):
@@ -171,29 +213,42 @@ async def do_install(hass, case):
             index = dict(st.get("index", []))
             cands |= set(index.values())
             candidates_of_files(st["files"], cands)
-            # the user's configuration: allow_all_imports for this run.  Changing it goes through a reload of the entry from
-            # what was persisted (restart semantics); an unchanged flag leaves the live entry object alone.
-            if bool(entry.data.get(CONF_ALLOW_ALL_IMPORTS)) != bool(st["allow"]):
-                new = {CONF_ALLOW_ALL_IMPORTS: bool(st["allow"])}
-                if persisted[0] is not None:
-                    new[CONF_INSTALLED_PACKAGES] = dict(persisted[0])
-                hass.config_entries.async_update_entry(entry, data=new)
+            # what happens between two passes: Home Assistant restarts (YAML import flow with the stored entry present) and
+            # reloads of the YAML configuration, all through pyscript's own code; a changed allow_all_imports is a YAML edit
+            # followed by a reload.  Nothing else touches the entry.
+            events = list(st.get("pre", []))
+            if not events and bool(entry.data.get(CONF_ALLOW_ALL_IMPORTS)) != bool(st["allow"]):
+                events = ["reload"]
+            for ev in events:
+                if ev == "restart":
+                    await restart(st["allow"])
+                else:
+                    await reload_yaml(st["allow"])
+            rec_start = entry.data.get(CONF_INSTALLED_PACKAGES)
+            rec_start = [[as_str(k), as_str(v)] for k, v in (rec_start or {}).items()]
+            pers_start = [[as_str(k), as_str(v)] for k, v in (persisted[0] or {}).items()]
+            fail = set(st.get("fail", []))
             folder, ids = write_tree(st["files"])
             env_before = list(env.items())
             calls = []
             captured = {}
-            updates = [0]
+            updates[0] = 0
 
             async def fake_installer(_hass, _domain, reqs, *a, **k):
                 reqs = list(reqs)
                 calls.append(reqs)
+                failed = []
                 for r in reqs:
                     parts = r.split("==")
                     name = parts[0].strip()
-                    if len(parts) > 1:
+                    if name in fail:
+                        failed.append(r)              # pip could not install this one
+                    elif len(parts) > 1:
                         env[name] = parts[1].strip()
                     elif name in index:
                         env[name] = index[name]
+                if failed:
+                    raise RequirementsNotFound(DOMAIN, failed)
 
             real_process = R.process_all_requirements
             real_glob = _glob.glob
@@ -209,25 +264,18 @@ async def do_install(hass, case):
                     captured["table"] = real_process(*a, **k)
                 return captured["table"]
 
-            real_update = hass.config_entries.async_update_entry
-
-            def counting_update(*a, **k):
-                updates[0] += 1
-                data_arg = k.get("data")
-                if data_arg is not None and data_arg.get(CONF_INSTALLED_PACKAGES) is not None:
-                    persisted[0] = dict(data_arg[CONF_INSTALLED_PACKAGES])      # snapshot: later in-place edits do not count
-                return real_update(*a, **k)
-
             kind, err = 2, None
             try:
                 with patch.object(R, "async_process_requirements", side_effect=fake_installer), \
                         patch.object(R, "installed_version", side_effect=make_lookup(env)), \
-                        patch.object(R, "process_all_requirements", side_effect=wrapped_process), \
-                        patch.object(hass.config_entries, "async_update_entry", side_effect=counting_update):
+                        patch.object(R, "process_all_requirements", side_effect=wrapped_process):
+                    in_install[0] = True
                     try:
                         await R.install_requirements(hass, entry, folder)
                     except Exception as exc:  # pylint: disable=broad-except
                         kind, err = 1, type(exc).__name__
+                    finally:
+                        in_install[0] = False
                 await hass.async_block_till_done()
             finally:
                 shutil.rmtree(folder, ignore_errors=True)
@@ -237,7 +285,7 @@ async def do_install(hass, case):
             pers = [[as_str(k), as_str(v)] for k, v in (persisted[0] or {}).items()]
             for r in rows:
                 cands.add(r[1])
-            for _k, v in rec_after + pers:
+            for _k, v in rec_after + pers + rec_start + pers_start:
                 if isinstance(v, str):
                     cands.add(v)
             cands |= set(env.values())
@@ -245,10 +293,11 @@ async def do_install(hass, case):
                 "order": canon_order(found, ids), "table": rows, "env_before": [list(x) for x in env_before], "kind": kind, "error": err,
                 "args": [as_str(x) for x in calls[0]] if len(calls) == 1 else (None if not calls else [as_str(x) for x in sum(calls, [])]),
                 "n_calls": len(calls),
-                "rec_after": rec_after, "persisted": pers, "updated": updates[0] > 0, "n_updates": updates[0],
+                "events": events, "rec_start": rec_start, "pers_start": pers_start, "rec_after": rec_after, "persisted": pers, "updated": updates[0] > 0, "n_updates": updates[0],
                 "env_after": [list(x) for x in env.items()],
             })
     finally:
+        upd_patch.stop()
         await hass.config_entries.async_remove(entry.entry_id)
     return {"steps": steps, "ranks": rank_table(cands)}
 
@@ -260,6 +309,9 @@ async def install_main(cases):
     out = []
     try:
         async with async_test_home_assistant(config_dir=tmp) as hass:
+            import homeassistant.loader as loader
+
+            hass.data.pop(loader.DATA_CUSTOM_COMPONENTS, None)      # let the real pyscript config flow be found
             for case in cases:
                 out.append(await do_install(hass, case))
             await hass.async_stop(force=True)
